@@ -15,6 +15,9 @@ WEIGHTS = {'create': 16, 'iter': 8, 'intoThin': 12, 'conv': 18, 'cb': 20, 'clone
 def run(ctx):
     histcheck.run(ctx, MODULE, WEIGHTS, TAGS, lean_extra=EXTRA,
                   release_quick_filter=lambda h: any(op.split()[0] in ('iter', 'intoThin', 'cb') for op in h))
+    # conversions and borrows under a concurrent observer of the count
+    from vlib import miri
+    miri.observer_pass(ctx, "C10")
     # the same claims over the shape matrix (over-aligned, byte-sized and zero-sized headers / elements), in the dev
     # profile and with release semantics: stored length = slice length, same header and elements at the same addresses
     # as the fat Arc, thin->fat->thin, and `into_thin` refusing (and releasing) an Arc with a disagreeing recorded length
